@@ -10,7 +10,7 @@ from .sigs import PO, PK, VA, KO, VK
 from .sigutil import bparams, show, show_params
 
 FORMS = ['function', 'function-emulate', 'function-noemulate', 'method', 'method-emulate', 'method-dotted',
-         'super', 'super-emulate', 'apply-super']
+         'method-dotted3', 'super', 'super-emulate', 'apply-super']
 
 
 def V(ctx, mech, what, w, rp):
@@ -164,6 +164,10 @@ def build_source(c, inner_params=None):
         if form == 'method-dotted':
             attr = 'helper.inner'
             callee = 'self.helper.inner'
+        elif form == 'method-dotted3':
+            # three components; the instance also has an unrelated attribute named like the middle one
+            attr = 'hub.helper.inner'
+            callee = 'self.hub.helper.inner'
         parts, flags = decl_args(c, lead=(attr,))
         if form == 'method-emulate':
             flags.append('emulate=True')
@@ -171,6 +175,11 @@ def build_source(c, inner_params=None):
         if form == 'method-dotted':
             src += 'class H(object):\n    def inner(%s): return None\n' % selfi
             src += 'class A(object):\n    helper = H()\n'
+        elif form == 'method-dotted3':
+            src += 'class H(object):\n    def inner(%s): return None\n' % selfi
+            src += 'class Decoy(object):\n    def inner(self, zz1, zz2, zz3, zz4): return None\n'
+            src += 'class Hub(object):\n    helper = H()\n'
+            src += 'class A(object):\n    hub = Hub()\n    helper = Decoy()\n'
         else:
             src += 'class A(object):\n    def inner(%s): return None\n' % selfi
         src += '    @specifiers.forwards_to_method(%s)\n' % ', '.join(parts + flags)
